@@ -9,10 +9,12 @@ import (
 	"strings"
 	"sync"
 	"sync/atomic"
+	"time"
 
 	"encoding/hex"
 
 	hash "github.com/dappledger/AnnChain/gemmill/go-hash"
+	"github.com/dappledger/AnnChain/gemmill/go-wire"
 	merkle "github.com/dappledger/AnnChain/gemmill/modules/go-merkle"
 	"github.com/dappledger/AnnChain/gemmill/types"
 
@@ -385,6 +387,55 @@ func main() {
 		}
 		if ok, _ := rcv.AddPart(ps.GetPart(1), true); !ok || !rcv.IsComplete() {
 			r.Fail(vh.Failure{Class: "part-set-does-not-complete", Detail: "after every part was delivered the set is not complete", Ops: []string{"go concurrent-same-part"}, Got: fmt.Sprint(rcv.Count()), Want: "complete"})
+		}
+	}
+	// ------------------------------------------------------------ part sets of successive blocks (Go-side oracle only)
+	// A node makes a part set for every block it proposes, stores, serves or replays, and keeps earlier
+	// ones in use (the proposal being gossiped, the block store's parts). Making the next block's part
+	// set must not disturb an earlier one: every earlier set still verifies against its own header and
+	// reassembles to its own block.
+	for c := 0; c < r.Scale(3, 12); c++ {
+		type made struct {
+			blk *types.Block
+			ps  *types.PartSet
+		}
+		var sets []made
+		n := 6 + c%4
+		for k := 0; k < n; k++ {
+			b := &types.Block{
+				Header:     &types.Header{ChainID: "c17", Height: int64(k + 1), Time: time.Unix(1600000000+int64(k), 0), ValidatorsHash: []byte("vals")},
+				Data:       &types.Data{},
+				LastCommit: &types.Commit{},
+			}
+			// later blocks are not larger than earlier ones (a buffer that is reused fits them)
+			for t := 0; t < 3; t++ {
+				b.Data.Txs = append(b.Data.Txs, types.Tx(r.R.Bytes(4000-300*k)))
+			}
+			sets = append(sets, made{b, b.MakePartSet(1024)})
+		}
+		r.Count("successive-part-sets")
+		for k := len(sets) - 1; k >= 0; k-- {
+			m := sets[k]
+			want := wire.BinaryBytes(m.blk)
+			rcv := types.NewPartSetFromHeader(m.ps.Header())
+			bad := ""
+			for i := 0; i < m.ps.Total(); i++ {
+				if ok, err := rcv.AddPart(m.ps.GetPart(i), true); !ok || err != nil {
+					bad = fmt.Sprintf("part %d of the part set of block %d is refused by a receiver that holds the set's header: %v", i, k+1, err)
+					break
+				}
+			}
+			if bad == "" {
+				got, _ := ioutil.ReadAll(rcv.GetReader())
+				if !bytes.Equal(got, want) {
+					bad = fmt.Sprintf("the parts of block %d reassemble to other bytes than the block", k+1)
+				}
+			}
+			if bad != "" {
+				r.Fail(vh.Failure{Class: "earlier-part-set-disturbed-by-a-later-one", Detail: bad + fmt.Sprintf(" (after %d more part sets were made)", len(sets)-1-k),
+					Ops: []string{fmt.Sprintf("go successive-part-sets n=%d", n)}, Got: bad, Want: "every part set stays what it was"})
+				break
+			}
 		}
 	}
 }
